@@ -499,3 +499,69 @@ def read_replay(path):
         else:
             ops.append(line)
     return container, ops
+
+
+# --------------------------------------------------------------------------- C-side coverage (gcov)
+
+def coverage_run(container, histories, max_hist=3000):
+    """Runs the histories on a `--coverage` build of the harness (no sanitizers) and reports, for the
+    library sources under /repo/src, line and branch coverage and every allocator call site
+    (`mem_alloc(`, `mem_calloc(`, `mem_free(`) with whether it fired.  Evidence only; never a verdict."""
+    import gzip
+    shim = ROOT / "harness" / f"shim_{container}.c"
+    work = Path(tempfile.mkdtemp(prefix=f"cov_{container}_", dir=CACHE))
+    try:
+        exe = work / "h"
+        cmd = ["gcc", "-O0", "-g", "--coverage", "-w", "-Wl,--wrap=malloc,--wrap=calloc,--wrap=free"] + \
+              ([] if container in ("spool", "dpool") else ["-DVERIF_WITH_POOL"]) + \
+              [f"-I{REPO}/src/include", f"-I{REPO}/src/include/sized", f"-I{REPO}/src/include/memory", f"-I{REPO}/src",
+               f"-I{REPO}/src/sized", f"-I{REPO}/src/memory", f"-I{ROOT}/harness", str(shim), "-o", str(exe), "-lm"]
+        r = sh(cmd, cwd=work)
+        if r.returncode != 0:
+            return {"error": r.stderr[-300:]}
+        hs = histories[:max_hist]
+        for lo in range(0, len(hs), 300):
+            lines = []
+            for h in hs[lo:lo + 300]:
+                lines.append("reset")
+                lines.extend(h)
+            try:
+                subprocess.run([str(exe)], input="\n".join(lines) + "\n", stdout=subprocess.DEVNULL,
+                               stderr=subprocess.DEVNULL, text=True, timeout=60, cwd=work)
+            except subprocess.TimeoutExpired:
+                pass
+        gcda = list(work.glob("*.gcda"))
+        if not gcda:
+            return {"error": "no .gcda written"}
+        sh(["gcov", "-b", "-c", "-j", gcda[0].name], cwd=work)
+        out = {}
+        for jf in work.glob("*.gcov.json.gz"):
+            d = json.load(gzip.open(jf))
+            for fi in d["files"]:
+                fn = fi["file"]
+                if "/src/" not in fn or not fn.endswith(".c") or str(REPO) not in fn:
+                    continue
+                rel = fn[len(str(REPO)) + 1:]
+                if rel.startswith("src/memory/") and container not in ("spool", "dpool"):
+                    continue      # only #included for the pool-backed allocator mode
+                ls = fi["lines"]
+                if not any(l["count"] > 0 for l in ls):
+                    continue      # a source that is only #included for the pool allocator
+                src = Path(fn).read_text(errors="replace").split("\n")
+                br = [b for l in ls for b in l.get("branches", [])]
+                sites, dead = 0, []
+                for l in ls:
+                    t = src[l["line_number"] - 1] if l["line_number"] - 1 < len(src) else ""
+                    if re.search(r"mem_(alloc|calloc|free)\s*\(", t):
+                        sites += 1
+                        if l["count"] == 0:
+                            dead.append(l["line_number"])
+                fns = fi.get("functions", [])
+                out[rel] = dict(lines=len(ls), lines_hit=sum(1 for l in ls if l["count"] > 0),
+                                branches=len(br), branches_hit=sum(1 for b in br if b["count"] > 0),
+                                functions=len(fns), functions_hit=sum(1 for f in fns if f.get("execution_count", 0) > 0),
+                                functions_never_called=[f["name"] for f in fns if f.get("execution_count", 0) == 0][:40],
+                                allocator_call_sites=sites, allocator_call_sites_never_fired=dead)
+        return out
+    finally:
+        shutil.rmtree(work, ignore_errors=True)
